@@ -109,9 +109,14 @@ def solve(raw, mip_rel_gap=0.0, time_limit=60.0, maximize_value=True):
         if st == "optimal":
             return st, np.asarray(res.x), float(-raw.c @ res.x)
         return st, None, None
-    # MIP
+    # MIP: a variable flagged boolean takes the values 0 or 1 that lie within its bounds
     integrality = np.zeros(n)
     integrality[raw.bools] = 1
+    raw = raw.copy()
+    raw.l[raw.bools] = np.maximum(raw.l[raw.bools], 0.0)
+    raw.u[raw.bools] = np.minimum(raw.u[raw.bools], 1.0)
+    if np.any(raw.l > raw.u + 1e-12):
+        return "infeasible", None, None
     cons = []
     if len(t):
         lo = np.full(len(t), -np.inf)
@@ -181,7 +186,7 @@ def residual(raw, x, tol_int=True):
             where = "row %d of type %s (a.x=%g, b=%g)" % (i, t[i], ax[i], raw.b[i])
     if tol_int and raw.bools:
         xb = x[raw.bools]
-        v = np.abs(xb - np.round(xb))
+        v = np.maximum(np.abs(xb - np.round(xb)), np.maximum(-xb, xb - 1.0))     # 0 or 1
         i = int(np.argmax(v))
         if v[i] > worst:
             worst = float(v[i])
